@@ -96,6 +96,8 @@ func (c *Ctx) inlineCall(fr *Frame, st *State, site ssa.Instruction, fn *ssa.Fun
 		}
 	}
 	nf.old = st.clone()
+	// "at call X assert" clauses of the function under verification apply to spliced callees too
+	c.atCallAsserts(fr, st, site, fn, c.calleeEnv(fr, fn, fn.Signature, paramNames(fn), st, st, args, nf.fd))
 	exits := c.execBody(nf, st, c.curReach)
 	return c.joinInlined(fr, st, exits, rt)
 }
@@ -545,7 +547,13 @@ func (c *Ctx) atCallAsserts(fr *Frame, st *State, site ssa.Instruction, callee *
 		env := &Env{c: c, fr: top, fn: top.fn, st: st, old: top.old, vars: map[string]*Val{}, fd: top.fd, cells: fr == top}
 		for i, p := range top.fn.Params {
 			if i < len(top.params) {
-				env.vars[p.Name()] = top.params[i]
+				if env.cells {
+					// like a loop invariant: a parameter the body reassigns is read at its current
+					// value; old(p) names the entry value
+					env.vars["old:"+p.Name()] = top.params[i]
+				} else {
+					env.vars[p.Name()] = top.params[i]
+				}
 			}
 		}
 		for k, v := range cenv.vars {
